@@ -73,7 +73,7 @@ func (f *Defgeneric) Call(s *slip.Scope, args slip.List, depth int) slip.Object 
 		slip.TypePanic(s, depth, "function-name", args[0], "symbol")
 	}
 	if fi := slip.FindFunc(string(name)); fi != nil {
-		if _, ok = fi.Aux.(*Aux); !ok {
+		if _, ok = fi.Aux.(*Aux); !ok && fi.Doc != nil {
 			slip.ProgramPanic(s, depth, "%s already names an ordinary function or macro.", name)
 		}
 	}
